@@ -80,7 +80,7 @@ def main():
     for o, f in zip(objs, srcs):
         if not f.startswith(SRC):
             continue
-        r = subprocess.run(["gcov", "-b", "-o", os.path.dirname(o), o], capture_output=True, text=True, cwd=cov)
+        r = subprocess.run(["gcov", "-b", "-p", "-o", os.path.dirname(o), o], capture_output=True, text=True, cwd=cov)
         m = re.search(r"File '%s'\nLines executed:([\d.]+)%% of (\d+)\n(?:Branches executed:([\d.]+)%% of (\d+)\nTaken at least once:([\d.]+)%% of (\d+)\n)?" % re.escape(f), r.stdout)
         if m:
             res[os.path.relpath(f, SRC)] = {"lines_pct": float(m.group(1)), "lines": int(m.group(2)),
